@@ -247,3 +247,35 @@ def standard_check(ctx, P):
         ctx.sample({"trace": t_id, "events": [json.loads(x) for x in lines[:6]]})
     ctx.assumptions += P.get("assumptions", [])
     return stats
+
+
+def corruption_selftest(ctx, P, corruptions, n_random=20):
+    """Binding self-test: record a small trace from the real code, check TLC accepts it, then apply each
+    corruption (fn(list-of-event-dicts) -> list-of-event-dicts or None if not applicable) to a copy and
+    require that TLC rejects every corrupted copy.  Returns True iff all corruptions were rejected."""
+    tspec = dict(P["trace"])
+    tspec.setdefault("specdir", P["specdir"])
+    trace_path = os.path.join(ctx.work, "selftest.ndjson")
+    run_driver(ctx, P["driver"], None, trace_path, n_random)
+    base = core.validate_trace(tspec["specdir"], tspec["module"], tspec["cfg"], trace_path,
+                               deque=tspec.get("deque", False), workers=tspec.get("workers", 1),
+                               extra_files=tspec.get("extra_files"))
+    if not base.accepted:
+        log("selftest: uncorrupted trace rejected")
+        return False
+    evs = core.read_ndjson(trace_path)
+    ok = True
+    for name, fn in corruptions:
+        bad = fn([dict(e) for e in evs])
+        if bad is None:
+            log("selftest: corruption %s not applicable" % name)
+            ok = False
+            continue
+        bp = os.path.join(ctx.work, "selftest-%s.ndjson" % name)
+        core.write_ndjson(bp, bad)
+        r = core.validate_trace(tspec["specdir"], tspec["module"], tspec["cfg"], bp,
+                                deque=tspec.get("deque", False), workers=tspec.get("workers", 1),
+                                extra_files=tspec.get("extra_files"))
+        log("selftest: corruption %-24s -> %s" % (name, "accepted (BAD)" if r.accepted else "rejected (%s at line %d)" % (r.reason, r.hwm)))
+        ok = ok and not r.accepted
+    return ok
